@@ -14,7 +14,8 @@ SeqsUpTo(S, n) == UNION {[1..m -> S] : m \in 0..n}
 SymA1 == <<"+", <<"n", "a">>, <<"i", 1>>>>
 Bases == {Base("ident", "a", 0, NoExpr), Base("ident", "v", 0, NoExpr), Base("int", "", 2, NoExpr),
           Base("sym", "", 0, SymA1), Base("sym", "", 0, <<"a", "n">>),
-          Base("empty", "", 0, NoExpr), Base("dots", "", 0, NoExpr), Base("comma", "", 0, NoExpr)}
+          Base("empty", "", 0, NoExpr), Base("dots", "", 0, NoExpr), Base("comma", "", 0, NoExpr),
+          Base("trailhash", "", 0, NoExpr)}
 AllToks == {Tok(m, b) : m \in SeqsUpTo(ModSeq, MaxMods), b \in Bases}
 
 \* a reduced alphabet for multi-token specifications
@@ -24,7 +25,9 @@ Reduced == {T0(<< >>, Base("ident", "a", 0, NoExpr)), T0(<<"#">>, Base("ident", 
             T0(<<"*">>, Base("ident", "v", 0, NoExpr)), T0(<<"*", "#">>, Base("ident", "v", 0, NoExpr)),
             T0(<< >>, Base("dots", "", 0, NoExpr)), T0(<<"_">>, Base("empty", "", 0, NoExpr)),
             T0(<< >>, Base("sym", "", 0, SymA1)), T0(<<"?">>, Base("ident", "a", 0, NoExpr)),
-            T0(<<"=">>, Base("int", "", 2, NoExpr))}
+            T0(<<"=">>, Base("int", "", 2, NoExpr)),
+            \* a comma-separated token next to a (legal) token that itself contains a comma and brackets
+            T0(<< >>, Base("comma", "", 0, NoExpr)), T0(<< >>, Base("sym", "", 0, <<"min", <<"n", "a">>, <<"i", 2>>>>))}
 
 \* fixed context under which legal specifications are probed
 Args == [n |-> 2]
